@@ -20,7 +20,7 @@ EXPLANATION = (
     'property and docs/backends/index.rst.  set_backend is interpreted on the module globals; mido/__init__.py must not import a '
     'backend module at import time.')
 TRUSTED = ['midolint abstract interpreter with recording doubles', 'reference decision table in midolint/rules/c20.py']
-ASSUMPTIONS = ['a backend name containing "/" together with an explicit api= argument is not part of the grid (behaviour unspecified)']
+ASSUMPTIONS = []
 
 BK = 'mido.backends.backend'
 ENV_KEYS = ('MIDO_DEFAULT_INPUT', 'MIDO_DEFAULT_OUTPUT', 'MIDO_DEFAULT_IOPORT', 'MIDO_BACKEND')
@@ -60,12 +60,10 @@ def make_interp(ctx, env, native_ioport, has_devices, devices=None):
 
 def expected_backend(bname, api_kw, env, use_environ_unused=True):
     name = bname or env.get('MIDO_BACKEND', 'mido.backends.rtmidi')
-    if api_kw:
-        return name, api_kw
+    suffix = None
     if name and '/' in name:
-        n, a = name.split('/', 1)
-        return n, a
-    return name, None
+        name, suffix = name.split('/', 1)       # the module is what precedes the slash, whatever else is given
+    return name, (api_kw or suffix or None)     # an explicit api beats the one in the name
 
 
 def r20_open(ctx):
@@ -88,7 +86,7 @@ def r20_open(ctx):
             e['MIDO_DEFAULT_IOPORT'] = 'EIO'
         env_opts.append(e)
     api_opts = [('mod', None, None), ('mod/APIN', None, None), ('mod', 'APIK', None), ('mod', None, 'APIC'), ('mod/APIN', None, 'APIC'),
-                ('mod', 'APIK', 'APIC')]
+                ('mod', 'APIK', 'APIC'), ('mod/APIN', 'APIK', None), ('mod/APIN', 'APIK', 'APIC')]
     for env in env_opts:
         for bname, api_kw, api_call in api_opts:
             for use_environ in (True, False):
@@ -168,6 +166,8 @@ def r20_backend_name(ctx):
         ('x.y', None, {'MIDO_BACKEND': 'other'}, ('x.y', None)),
         ('x.y/A/B', None, {}, ('x.y', 'A/B')),
         ('x.y', 'K', {'MIDO_BACKEND': 'other/Z'}, ('x.y', 'K')),
+        ('x.y/A', 'K', {}, ('x.y', 'K')),
+        (None, 'K', {'MIDO_BACKEND': 'other/Z'}, ('other', 'K')),
         (None, 'K', {'MIDO_BACKEND': 'other'}, ('other', 'K')),
     ]
     for bname, api, env, (wn, wa) in cases:
